@@ -241,6 +241,10 @@ def bookkeep(ref, op):
         return write_admissible(op, nh)
     if k == "g":
         return True
+    if k == "x":        # an error-path call: has to be rejected; an element-wise path may have rewritten part of the errors
+        if op[1] == "set_error":
+            ref.errnz[-1] = None
+        return False
     raise AssertionError(op)
 
 
@@ -268,8 +272,10 @@ def gen_output(rng, ref, wr_only=False):
     return ("g", rng.choice("cccwwlrbhken"))
 
 
-def gen_op(rng, ref):
+def gen_op(rng, ref, errors="front"):
     nb, nh = ref.nb, ref.nh
+    if errors and nb >= 1 and rng.random() < 0.08:
+        return H.gen_error_call(rng, ref.edges, nh=nh, front_only=(errors == "front"))
     if rng.random() < 0.12:
         return ("g", rng.choice("cwlrbhken"))
     r = rng.random()
@@ -317,13 +323,13 @@ def gen_op(rng, ref):
     return gen_write(rng, nh)[0]
 
 
-def gen_history(rng, max_ops=15):
+def gen_history(rng, max_ops=15, errors="front"):
     ctor = H.gen_ctor(rng, max_bins=5)
     edges = [float(x) for x in make_hist(ctor).bin_edges_]
     ref = Ref(edges)
     ops, adms = [], []
     for _ in range(rng.randint(2, max_ops)):
-        op = gen_op(rng, ref)
+        op = gen_op(rng, ref, errors)
         adm = bookkeep(ref, op)
         ops.append(op)
         adms.append(adm)
@@ -332,7 +338,7 @@ def gen_history(rng, max_ops=15):
     return ctor, edges, ops, adms
 
 
-def gen_session(rng, max_blocks=4):
+def gen_session(rng, max_blocks=4, errors="front"):
     """a session on one object built from blocks  <outputs> <mutation> <outputs> <mutation> … <outputs>, where a
     mutation is one random call (any arguments), a content change, or a round trip that brings a COUNT back to what it
     was while the content differs: remove_bin+add_bin / add_bin+remove_bin (number of bins), add_histogram … average
@@ -363,7 +369,7 @@ def gen_session(rng, max_blocks=4):
     if rng.random() < 0.85:
         outputs()
     for _ in range(rng.randint(1, max_blocks)):
-        kind = rng.choice(["rebin", "rebin", "hists", "content", "content", "random", "random"])
+        kind = rng.choice(["rebin", "rebin", "hists", "content", "content", "random", "random", "error"])
         if kind == "rebin" and ref.nb >= 1 and ref.nb <= 6:
             if ref.nb >= 2 and rng.random() < 0.6:
                 emit(("rb", rng.randrange(ref.nb)))
@@ -399,8 +405,13 @@ def gen_session(rng, max_blocks=4):
                 emit(("se",))
             else:
                 emit(("md",))
+        elif kind == "error" and errors and ref.nb >= 1:
+            # calls that fail (at different depths of their work), then the session goes on with the same object
+            for _ in range(rng.randint(1, 2)):
+                emit(H.gen_error_call(rng, ref.edges, nh=ref.nh, front_only=(errors == "front")))
+            tags.add("failed-call-then-outputs")
         else:
-            emit(gen_op(rng, ref))
+            emit(gen_op(rng, ref, errors))
         if ref.unknown:
             break
         outputs()
@@ -456,7 +467,8 @@ def enc_op10(op):
 
 
 def enc_sess(edges, ops):
-    return "sess\t" + ";".join(common.f2h(e) for e in edges) + "\t" + "|".join(enc_op10(o) for o in ops)
+    """(error-path calls ("x", …) are outside the model: it is given the other calls only)"""
+    return "sess\t" + ";".join(common.f2h(e) for e in edges) + "\t" + "|".join(enc_op10(o) for o in ops if o[0] != "x")
 
 
 def apply10(h, op):
@@ -542,6 +554,9 @@ def cmp_state(rs, ms, exact):
 
 def cmp_value(op, rv, mv, exact):
     if op[0] == "wr":
+        want_c = (op[3],) if len(op) > 3 and op[3] != "" else ()
+        if tuple(getattr(rv, "comments", want_c)) != want_c:
+            return f"comment lines {list(rv.comments)} written for comment={op[3] if len(op) > 3 else ''!r}"
         return H.compare_obs(("ok", rv), ("ok", mv), exact)
     name = GETTERS[op[1]]
     if rv[0] != mv[0]:
@@ -556,10 +571,22 @@ def compare_session(ctor, ops, answer, mode):
     H.set_precision(ctor)
     real, final, final_obs = run_session(ctor, ops, mode)
     model = parse_sess(answer)
-    if model is None or len(model) != len(ops):
+    if model is None or len(model) != len([o for o in ops if o[0] != "x"]):
         return f"driver answered {answer[:200]}", -1, real
     exact = True
-    for i, (op, (rt, rv, rs), (mt, mv, ms)) in enumerate(zip(ops, real, model)):
+    it = iter(model)
+    last = H.init_obs([float(x) for x in make_hist(ctor).bin_edges_])
+    for i, (op, (rt, rv, rs)) in enumerate(zip(ops, real)):
+        if op[0] == "x":
+            # a call outside the model: it has to raise and to leave the object as the model has it after the calls before
+            if not rt.startswith("err"):
+                return None, -1, real
+            d = cmp_state(rs, last, exact) if rs is not None else None
+            if d:
+                return (f"after the failed call {i} {op[1]}{op[2]} (raised {rt}; observation mode {mode}) the object is not as "
+                        f"before: {d}"), i, real
+            continue
+        mt, mv, ms = next(it)
         if op[0] in H.INEXACT_OPS:
             exact = False
         d = None
@@ -571,8 +598,9 @@ def compare_session(ctor, ops, answer, mode):
             d = cmp_state(rs, ms, exact)
         if d:
             return f"after call {i} {op[:3]} (observation mode {mode}): {d}", i, real
+        last = ms
     if ops:
-        d = cmp_state(final, model[-1][2], exact) or cmp_state(final_obs, model[-1][2], exact)
+        d = cmp_state(final, last, exact) or cmp_state(final_obs, last, exact)
         if d:
             return f"at the end of the session (observation mode {mode}): {d}", len(ops) - 1, real
     return None, -1, real
@@ -611,7 +639,11 @@ def correspond(ctx):
                 "representable), then averaged and written; the real object is touched only by the calls of the session and looked at in one of three ways "
                 "(every accessor after every call / attribute reads only / not at all until the end); compared with the "
                 "model at every call: outcome, file cell by cell, accessor value, shapes + values of the five arrays, "
-                "edges; non-trivial = session with an output, then an accepted mutation, then another output; "
+                "edges; ERROR PATHS: calls outside the model that have to raise (bad element at position 0 of the data, "
+                "wrong types, unknown keywords, unwritable paths, warnings turned into errors, …) are mixed in: the object "
+                "must then be in the state the model has after the valid calls, and the session goes on; CALL FORMS: every "
+                "call is written positionally in the documented order / with keywords / mixed, defaults left out or given "
+                "explicitly (fixed by a hash of the call); non-trivial = session with an output, then an accepted mutation, then another output; "
                 "distinct by canonical input + observation mode")
     ctx.assumptions.append("np.delete/np.insert/np.vstack/np.average(axis=0, weights)/np.sum(axis=0) contracts; "
                            "csv.writer + repr(float) round trip (the CSV is compared after float() parsing); reading an "
@@ -640,7 +672,12 @@ def correspond(ctx):
         ctx.case(canon, "output-mutation-output" in pats,
                  sample=dict(ctor=jsonable(ctor), ops=jsonable([list(o[:3]) for o in ops]), observation=mode))
         for o, (t, _v, _s) in zip(ops, real):
-            ctx.count(f"op/{o[0] if o[0] != 'g' else 'g:' + GETTERS[o[1]]}/{t}")
+            if o[0] == "x":
+                ctx.count(f"error-path/{o[1]}/{t}" + ("/warnings-as-errors" if "warn" in o[3] else ""))
+            else:
+                ctx.count(f"op/{o[0] if o[0] != 'g' else 'g:' + GETTERS[o[1]]}/{t}")
+            if o[0] != "g":
+                ctx.count("call-form/" + H.call_form((H.op_method(o), jsonable(list(o)))))
         ctx.count(f"observation/{mode}")
         for p_ in pats:
             ctx.count(f"pattern/{p_}")
@@ -771,16 +808,24 @@ def oracle_c10(ctor, ops, adms):
     `h` is the long-lived object of the session: it sees every call, and nothing else (its state is read from the
     attributes).  `twin` sees the mutating calls only; whenever the session makes an output the same call is made on
     a throw-away copy of `twin`, i.e. on an object with the same history of operations that has never been asked for
-    anything."""
+    anything.
+    Error paths: a call that raises must leave `h` exactly as it was (all attributes), except that the element-wise
+    paths (add_value with a weight list / under warnings-as-errors, set_error / set_systematic_error with a
+    non-numeric element, make_density refusing in its last step) may have processed exactly the part before the
+    offending element (`H.prefix_equivalent`: judged against the equivalent VALID call on a copy of the object taken
+    before the call).  From the first failed call on, `clean` is an object that has seen the valid calls only: every
+    later call on `h` must have the same outcome, output and state as on `clean`; at the end the valid calls are
+    replayed on an object created after all the failures."""
     h = make_hist(ctor)
     H.set_precision(h)
     twin = make_hist(ctor)
     ref = Ref([float(x) for x in h.bin_edges_])
+    clean, valid_calls, failures = None, [], []
     earlier = []            # references at the earlier outputs of the session (diagnosis: stale value)
     last_shape_op = "constructor"
     for n, (op, adm) in enumerate(zip(ops, adms)):
         k = op[0]
-        name = OPNAME[k] if k != "g" else GETTERS[op[1]]
+        name = GETTERS[op[1]] if k == "g" else H.op_method(op)
         where = dict(op_index=n, op=jsonable(list(op[:3])), after=last_shape_op)
         ref_ok = not ref.unknown
         if ref_ok:
@@ -799,6 +844,8 @@ def oracle_c10(ctor, ops, adms):
             other = copy.deepcopy(twin)
         else:
             other = twin
+        before_obj = copy.deepcopy(h)
+        before = attrs(h)
         try:
             with np.errstate(all="ignore"):
                 got = apply10(h, op)
@@ -806,8 +853,53 @@ def oracle_c10(ctor, ops, adms):
         except Exception as e:  # noqa: BLE001
             raised = e
         otag, oval = attempt(other, op)
+        sp = shape_problem(h)
+        if sp:
+            return (f"shape:{sp[0]}:after-{name}" + ("-rejected-call" if raised is not None else ""),
+                    f"after {name}{' (which raised ' + type(raised).__name__ + ')' if raised is not None else ''}: "
+                    f"{sp[0]} has shape {sp[1]}, expected {sp[2]} = (number of histograms, number of bins)", where)
         if raised is None and adm is False and k not in ("f", "fl", "wr"):
             return None     # a call the harness expected to be rejected went through: its bookkeeping is void
+        # ---- error paths: a failed call leaves the object as it was
+        if raised is not None:
+            after = attrs(h)
+            if not same(before, after):
+                eq = H.prefix_equivalent(op, before["edges"], before["nb"], last_err=before["err"]["data"][-1],
+                                         last_sys=before["sys"]["data"][-1]) if k in ("x", "fl", "md") else None
+                tolerated = False
+                if eq is not None:
+                    etag, _ = attempt(before_obj, eq)
+                    tolerated = etag == "ok" and same(attrs(before_obj), after)
+                if not tolerated:
+                    diff = [k_ for k_ in before if not same(before[k_], after[k_])]
+                    return (f"error-path:object-changed-by-failed-call:{name}",
+                            f"{name} raised {type(raised).__name__} ({str(raised)[:80]}) but the object is not as it was before "
+                            f"the call: {diff} changed from {[before[k_] for k_ in diff]} to {[after[k_] for k_ in diff]}",
+                            dict(where, changed=diff, exception=type(raised).__name__))
+                if clean is None:
+                    clean = copy.deepcopy(h)        # = the object before the call + the equivalent valid call
+                else:
+                    attempt(clean, eq)
+                valid_calls.append(eq)
+            elif clean is None:
+                clean = before_obj                  # up to here `h` has seen valid calls only
+            failures.append(name)
+        else:
+            valid_calls.append(op)
+            if clean is not None:
+                ctag, cval = attempt(clean, op)
+                if ctag != "ok" or (k in OUTPUT_OPS and not same(got, cval)):
+                    return (f"instance-reuse-after-error-output:{name}",
+                            f"{name} on the object that went through the failed call(s) {failures} gave ok {got}; on an object "
+                            f"that has seen the valid calls only: {ctag} {cval}", dict(where, failed_calls=failures))
+        if clean is not None:
+            s1, s2 = attrs(h), attrs(clean)
+            if not same(s1, s2):
+                diff = [k_ for k_ in s1 if not same(s1[k_], s2[k_])]
+                return (f"instance-reuse-after-error:{name}",
+                        f"after {name} the arrays {diff} of the object that went through the failed call(s) {failures} differ from "
+                        f"those of an object that has seen the valid calls only: {[s1[k_] for k_ in diff]} vs "
+                        f"{[s2[k_] for k_ in diff]}", dict(where, failed_calls=failures))
         if raised is not None and adm:
             ctxs = ""
             if k == "wr":
@@ -815,11 +907,6 @@ def oracle_c10(ctor, ops, adms):
             return (f"raises:{name}{ctxs}:{type(raised).__name__}",
                     f"{name} raised {type(raised).__name__} ({raised}) on valid arguments in a state reached by valid calls",
                     dict(where, exception=str(raised)))
-        sp = shape_problem(h)
-        if sp:
-            return (f"shape:{sp[0]}:after-{name}" + ("-rejected-call" if raised is not None else ""),
-                    f"after {name}{' (which raised ' + type(raised).__name__ + ')' if raised is not None else ''}: "
-                    f"{sp[0]} has shape {sp[1]}, expected {sp[2]} = (number of histograms, number of bins)", where)
         if k in SHAPE_OPS and raised is None:
             last_shape_op = name
         if ref_ok:
@@ -864,6 +951,11 @@ def oracle_c10(ctor, ops, adms):
         if k in OUTPUT_OPS and raised is None and adm and snap is not None:
             nh = ref.nh if ref_ok else snap["nh"]
             tab = tables(ref.edges, nh, snap)
+            if k == "wr":
+                want_c = (op[3],) if len(op) > 3 and op[3] != "" else ()
+                if tuple(getattr(got, "comments", want_c)) != want_c:
+                    return ("write:comment", f"write_to_file(comment={op[3] if len(op) > 3 else ''!r}) wrote the comment lines "
+                            f"{list(got.comments)}", where)
             if k == "wr" and tab is not None:
                 exp_csv = expected_csv(tab, nh, ref.nb, op[1], op[2])
                 if len(got) != len(exp_csv):
@@ -929,6 +1021,18 @@ def oracle_c10(ctor, ops, adms):
             return (f"history-dependent-state:after-{name}",
                     f"after {name} the arrays {diff} of the long-lived object differ from those of an object with the same "
                     f"history of operations but no earlier output: {[s1[k_] for k_ in diff]} vs {[s2[k_] for k_ in diff]}", where)
+    if failures:
+        # another object, created after all the failures, driven through the valid calls only
+        late = make_hist(ctor)
+        for op in valid_calls:
+            attempt(late, op)
+        lab = [{c: f"h{j}:{c}" for c in ALL_COLS} for j in range(max(h.number_of_histograms_, 1))]
+        probe = ("wr", None, lab, "")
+        if not same(attrs(h), attrs(late)) or not same(attempt(copy.deepcopy(h), probe), attempt(late, probe)):
+            return ("instance-reuse-after-error-other-object",
+                    f"an object created after the failed calls {failures} and driven through the valid calls of the session "
+                    f"differs from the object that went through the failures: {attrs(late)} vs {attrs(h)}",
+                    dict(op_index=len(ops) - 1, failed_calls=failures))
     return None
 
 
@@ -970,9 +1074,9 @@ def search(ctx, budget_s):
         if n % 8 == 5:     # contents large compared with their spread over the histograms, then averaged
             ctor, edges, ops, adms = gen_big_average(rng)
         elif n % 2:     # sessions: outputs, a mutation (count-restoring round trips among them), outputs again
-            ctor, edges, ops, adms, _tags = gen_session(rng)
+            ctor, edges, ops, adms, _tags = gen_session(rng, errors="any")
         else:
-            ctor, edges, ops, adms = gen_history(rng)
+            ctor, edges, ops, adms = gen_history(rng, errors="any")
         if n % 4 == 0:   # the sequences the statement names: write after averaging, scale after inserting a bin
             ops = [o for o in ops if o[0] not in ("wr",)]
             adms = readmit(ctor, ops)
